@@ -68,12 +68,19 @@ def literal_text(v):
     return repr(v)
 
 
+COMPACT = [('1e4', 1e4), ('1e3', 1e3), ('2e5', 2e5), ('1e-3', 1e-3), ('1E2', 100.0), ('1e16', 1e16), ('5e-324', 5e-324), ('1e22', 1e22), ('3e8', 3e8), ('1e5j', 1e5j),
+           ('0x10', 16), ('0o7', 7), ('0b101', 5), ('0xffff', 65535), ('1e0', 1.0), ('9e9', 9e9), ('1e999', float('inf'))]
+
+
 @st.composite
 def arith(draw, depth=0, maxdepth=4):
     """Returns (text, value) where value is the bounded evaluation (EXC when it raises)."""
     r = draw(st.integers(0, 9))
     if depth >= maxdepth or (depth > 0 and r < 4):
-        k = draw(st.integers(0, 19))
+        k = draw(st.integers(0, 22))
+        if k >= 20:
+            # compact spellings: the text is shorter than repr() of the value, which is what the "not longer" rule is up against
+            return draw(st.sampled_from(COMPACT))
         if k < 7:
             v = draw(st.sampled_from(SMALL))
         elif k < 9:
@@ -119,6 +126,29 @@ def arith(draw, depth=0, maxdepth=4):
     return '%s(%s)' % (op, t), nv
 
 
+@st.composite
+def boundary_arith(draw):
+    """Short expressions whose folded spelling is about as long as they are: one digit or compact literal, an operator, a compact literal.
+    The "left alone when it would not get shorter" rule is decided on the one or two characters these differ by."""
+    tiny = [(str(i), i) for i in range(0, 10)] + [('10', 10), ('99', 99), ('1.', 1.0), ('.5', .5), ('1j', 1j)]
+    enot = [('1e1', 1e1), ('1e2', 1e2), ('1e3', 1e3), ('1e4', 1e4), ('1e5', 1e5), ('1e6', 1e6), ('2e3', 2e3), ('5e4', 5e4), ('1e9', 1e9), ('1e-1', 1e-1), ('1e-2', 1e-2), ('1e-4', 1e-4)]
+    lt, lv = draw(st.sampled_from(tiny + tiny + COMPACT + enot))
+    rt, rv = draw(st.sampled_from(enot + enot + COMPACT + tiny))
+    for _ in range(4):
+        op = draw(st.sampled_from(['+', '-', '-', '*', '//', '%', '<<', '|', '&', '^', '>>']))
+        v = bounded(op, lv, rv)
+        if isinstance(v, str) and v == 'TOOBIG':
+            continue
+        return '%s%s%s' % (lt, op, rt), v
+    return '1-1e4', 1 - 1e4
+
+
+# contexts in which the printed operand needs parentheses or not depending on what it is
+PRECEDENCE_CONTEXTS = ['p{i} = ({E}) ** z', 'p{i} = z ** ({E})', 'u{i} = -({E})', 'v{i} = ~({E})', 'a{i} = ({E}).real', 'v{i} = ({E}) * x', 'v{i} = x - ({E})', 'v{i} = x / ({E})',
+                       'w{i} = a < ({E}) < b', 'v{i} = x[{E}]', 's{i} = f"{E}"', 'n{i} = not ({E})', 'v{i} = ({E})[0]', 'v{i} = ({E})(x)', 'v{i} = -({E}) ** 2',
+                       'v{i} = (({E}) ** 2) ** x', 'v{i} = x ** -({E})', 'v{i} = ({E}) @ x', 'v{i} = x if ({E}) else y', 'v{i} = ({E}) % x']
+
+
 CONTEXTS = [
     'v{i} = {E}', 'f({E})', 'f(k={E})', 'x[{E}]', 'x[{E}:{E2}]', 'def g{i}(a={E}): pass', '@deco({E})\ndef h{i}(): pass',
     'def r{i}():\n    return {E}', 's{i} = f"{E}"', 'c{i} = [{E} for q in y if {E2}]', 'a{i} = ({E}).real', 'u{i} = -({E})',
@@ -139,7 +169,13 @@ def fold_modules(draw, level=(3, 12)):
         ctx = draw(st.sampled_from(CONTEXTS + ([MATCH_CONTEXT] if level >= (3, 10) else [])))
         if level < (3, 6) and ('f"' in ctx or ': int' in ctx or 'metaclass' in ctx):
             ctx = 'v{i} = {E}'
-        e, v = draw(arith())
+        boundary = level >= (3, 6) and draw(st.integers(0, 3)) == 0
+        if boundary:
+            e, v = draw(boundary_arith())
+            if draw(st.integers(0, 3)) > 0:
+                ctx = draw(st.sampled_from(PRECEDENCE_CONTEXTS))
+        else:
+            e, v = draw(arith())
         e2, v2 = draw(arith(maxdepth=2))
         if level < (3, 5):
             e = e.replace('@', '*')
